@@ -442,7 +442,14 @@ def _is_data_norm(f, row, s: ast.Assign, idx, n) -> bool:
         return True
     if isinstance(v, (ast.Tuple,)) and len(v.elts) == n:
         e = v.elts[idx]
-        return isinstance(e, ast.Name) and e.id in row["norm"]
+        if isinstance(e, ast.Name) and e.id in row["norm"]:
+            return True
+        # the result of error_calc kept whole and read by position: state = error_calc(...); ..., norm = state[1], state[2]
+        if isinstance(e, ast.Subscript) and isinstance(e.slice, ast.Constant) and e.slice.value == 2 and isinstance(e.value, ast.Name):
+            from .state import _resolve_at
+
+            r = _resolve_at(e.value, s, f.node, depth=1)
+            return isinstance(r, ast.Call) and call_name(r) == "error_calc"
     return False
 
 
